@@ -162,6 +162,9 @@ static PANIC_LOCATIONS: Mutex<Vec<String>> = Mutex::new(Vec::new());
 pub fn quiet_panics() {
     std::panic::set_hook(Box::new(|info| {
         let loc = info.location().map_or_else(|| "?".to_string(), |l| format!("{}:{}", l.file(), l.line()));
+        if std::env::var_os("VERIF_LOUD").is_some() {
+            eprintln!("panic at {loc}: {info}");
+        }
         PANIC_LOCATIONS.lock().unwrap_or_else(|e| e.into_inner()).push(loc);
     }));
 }
